@@ -252,6 +252,16 @@ class Component( ComponentLevel7 ):
     for func, obj_name in provided_func_calls:
       parent._dsl.func_calls[func].add( eval(obj_name) )
 
+    # Restoring the saved connections and read/write sets above creates
+    # slice and struct-field signals of the new component lazily (eval of
+    # names such as "top.x.in_.a[0:4]"). They were not there yet when the
+    # signals of obj were collected, so collect again. Otherwise they are
+    # missing from all_signals and a net that only consists of such a
+    # signal and a constant is never found again by the net floodfill.
+    late_signals = obj._collect_all_single( lambda x: isinstance( x, Signal ) ) - added_signals
+    top._dsl.all_signals       |= late_signals
+    top._dsl.all_named_objects |= late_signals
+
     del NamedObject._elaborate_stack
 
   def _delete_component( top, obj ):
